@@ -715,6 +715,7 @@ and gen_named_func ?(toplevel = false) ?kind st env d : fdef * vinfo =
                 block = []; forbid = IS.empty; loopd = 0; recf = None } in
   let saved = st.cost in
   st.cost <- 0;
+  let tailpos = ref false in
   let body =
     match kind, measure_name with
     | `Plain, _ | _, None -> fst (gen_block st env_f ret d ~items:(Rng.int st.rng (1 + w st "block_items")))
@@ -731,20 +732,23 @@ and gen_named_func ?(toplevel = false) ?kind st env d : fdef * vinfo =
       let env_r = { env_b with recf = Some r } in
       let call_in env = match rec_call st env r (max d 2) with Some e -> e | None -> base in
       let call () = call_in env_r in
+      (* a self tail call in a function WITH catch clauses is compiled to a jump by the pinned compiler:
+         the outer activations' clauses are lost (reported); such functions get no catch clauses *)
       let recexpr =
         match ret with
         | TInt ->
           Rng.weighted st.rng [
             30, (fun () -> let c = call () in EBin (Rng.pick st.rng [Add; Sub; Mul; BXor], c, fst (gen_expr st env_r TInt (min d 2) ~op:true)));
             20, (fun () -> let f = fst (gen_expr st env_r TInt (min d 2) ~op:true) in EBin (Rng.pick st.rng [Add; Sub], f, call ()));
-            20, (fun () -> call ());
+            20, (fun () -> tailpos := true; call ());
             15, (fun () ->
+                tailpos := true;
                 (* the items of this block may not hide f or n: the call is its last item *)
                 let env', its = gen_items st { env_r with block = []; forbid = IS.of_list [name; m]; recf = None } 1 ~items:1 in
                 EBlock (its @ [IExpr (call_in { env' with recf = Some r })]));
             15, (fun () -> let c = call () in EBin (Add, c, fst (gen_expr st env_r TInt (max d 2) ~op:true))) ] ()
         | TBool when Rng.bool st.rng -> ENot (call ())
-        | _ -> call () in
+        | _ -> tailpos := true; call () in
       let guard = Rng.pick st.rng [EBin (Le, ev m, ei 0); EBin (Lt0, ev m, ei 1); ENot (EBin (Gt0, ev m, ei 0))] in
       let fin = if Rng.pct st.rng 30 then ECond (guard, EBlock [IExpr base], EBlock [IExpr recexpr])
         else ECond (guard, base, recexpr) in
@@ -781,7 +785,9 @@ and gen_named_func ?(toplevel = false) ?kind st env d : fdef * vinfo =
       let b = match bound with Some b -> b | None -> 1 in
       st.cost <- 12 * (b + 1);
       [IExpr tailexpr] in
-  let catches, call = match kind with `Tail -> ([], None) | _ -> gen_catches st env_f ret (min d 2) in
+  let catches, call = match kind with
+    | `Tail -> ([], None)
+    | _ -> if !tailpos then ([], None) else gen_catches st env_f ret (min d 2) in
   let fcost = st.cost + 2 in
   st.cost <- saved;
   let firstclass = bound = None && List.for_all (fun b -> not b) fvars && fcost <= w st "esc"
